@@ -146,6 +146,28 @@ def h_lateral_mask(e, cfg):
         import torch.nn as nn
         conn.weight = nn.Parameter(e.sym((n, n), torch.float32, "Wp", lo=-5, hi=5), False)
         conn.delay = e.sym((n, n), torch.float32, "Dp", lo=0, hi=2)
+    elif cfg["via"] in ("transposed", "subblock", "expanded", "transposed-then-updater"):
+        # non-contiguous / stride-0 tensors (views): whatever is assigned, the diagonal is masked and the rest is kept
+        if cfg["via"].startswith("transposed"):
+            Wn, Dn = e.sym((n, n), torch.float32, "Wn", lo=-5, hi=5).t(), e.sym((n, n), torch.float32, "Dn", lo=0, hi=2).t()
+        elif cfg["via"] == "subblock":
+            Wn, Dn = e.sym((n + 1, n + 2), torch.float32, "Wn", lo=-5, hi=5)[1:, :n], e.sym((n + 2, n + 1), torch.float32, "Dn", lo=0, hi=2)[:n, 1:]
+        else:
+            Wn, Dn = e.sym((1, 1), torch.float32, "Wn", lo=-5, hi=5).expand(n, n), e.sym((n, 1), torch.float32, "Dn", lo=0, hi=2).expand(n, n)
+        wn, dn = e.read(Wn).copy(), e.read(Dn).copy()
+        conn.weight = Wn
+        conn.delay = Dn
+        if cfg["via"].endswith("updater"):
+            conn.updater = conn.defaultupdater()
+            up = e.sym((n, n), torch.float32, "p0", lo=0, hi=3)
+            conn.updater.weight = (up, None)
+            conn.update()
+            wn = np.frompyfunc(T.add, 2, 1)(wn, e.read(up))
+        wa_, da_ = e.read(conn.weight), e.read(conn.delay)
+        for o in range(n):
+            for i in range(n):
+                if o != i:
+                    e.oblige("lateral:off-diagonal-kept", T.band(T.tob(T.same(wa_[o, i], wn[o, i])), T.tob(T.same(da_[o, i], dn[o, i]))), elem=[o, i])
     else:
         conn.weight = conn.weight + e.sym((n, n), torch.float32, "dW", lo=-5, hi=5)
         conn.delay = conn.delay * 2 + 1
@@ -241,7 +263,7 @@ def checks(tier):
                 for B in ((1, 2) if th else (2,)):
                     for dt in ((1.0, 1.3) if th else (1.3,)):
                         lin.append(dict(kind=kind, inshape=ish, outshape=osh, bias=bias, B=B, dt=dt))
-    lat = [dict(n=n, via=v, parts=p) for n in ((2, 3) if th else (3,)) for v, p in (("updater", 1), ("updater", 2), ("parameter", 0), ("expression", 0))]
+    lat = [dict(n=n, via=v, parts=p) for n in ((2, 3) if th else (3,)) for v, p in (("updater", 1), ("updater", 2), ("parameter", 0), ("expression", 0), ("transposed", 0), ("subblock", 0), ("expanded", 0), ("transposed-then-updater", 1))]
     conv = []
     geo = []
     sizes = range(1, 6) if th else (3, 4, 5)
@@ -268,7 +290,7 @@ def checks(tier):
 BOUNDS = {
     "quick": {"linear": "dense/direct/lateral; in/out shapes {(3,)->(2,), (2,2)->(3,), (1,)->(1,)}; bias on/off; batch 2; 2 steps with re-assigned parameters",
               "conv2d": "H=W in {3,4,5}; kernel 1..3; stride 1,2; padding 0,1; dilation 1,2; C,F in {1,2}; every combination with a non-empty output",
-              "lateral": "n=3; assignment by tensor, Parameter, expression; updater with 1-2 contributions to weight and delay"},
+              "lateral": "n=3; assignment by tensor, Parameter, expression, transposed / sub-block / expanded (non-contiguous) views; updater with 1-2 contributions to weight and delay"},
     "thorough": {"linear": "5 shape pairs, batch 1-2, dt 1.0/1.3", "conv2d": "H,W in 1..5 incl. rectangular inputs/kernels and mixed stride/padding; C,F all of {1,2}^2"},
 }
 OUTSIDE = ["assignment of +-inf / NaN weights (x*0)", "delayed forward path (covered by C06)", "kernel/stride/dilation beyond the grid"]
